@@ -22,7 +22,7 @@ from ref import docspec
 
 PROPERTY = "C14"
 LEVEL = "model_checking"
-RULE = ("every subset of <= budget sources (13 sources: 8 on the leaf, 3 on the parent, 2 on the grandparent) x every "
+RULE = ("every subset of <= budget sources (15 sources: 9 on the leaf, 3 on the parent, 2 on the grandparent, 1 on the defs shape a use instantiates) x every "
         "order of the selected style rules x property in {fill, stroke, stroke-width} x reify; extras: 40 syntax / opacity "
         "/ currentColor / display / transform / vector-effect documents; model state = the cascade evaluator's (specified, "
         "inherited) maps per element; a transition = one element.  Non-trivial: >= 2 sources compete or the value is "
@@ -46,10 +46,16 @@ SOURCES = [
     ("L.inline", "leaf", "inline"),
     ("P.attr", "parent", "attr"), ("P.id", "parent", "rule:#H"), ("P.inline", "parent", "inline"),
     ("G.attr", "grand", "attr"), ("G.class", "grand", "rule:.cg"),
+    # a rule that addresses the defs leaf by id: it must reach the copy that <use id="U"> instantiates inside the
+    # painted group, where it competes with the type / universal rules and with inheritance from the use's ancestors
+    ("D.id", "defsleaf", "rule:#D"),
+    # a second class of the leaf (class="cl2 cl"): two rules of equal specificity, both sheet orders are enumerated and
+    # one of them is opposite to the order of the names in the class attribute
+    ("L.class2", "leaf", "rule:.cl2"),
 ]
 COLORS = ["#110000", "#002200", "#000033", "#440044", "#555500", "#006666", "#770000", "#008800", "#000099", "#aa00aa",
-          "#bbbb00", "#00cccc", "#dd0000"]
-WIDTHS = ["2", "3", "4.5", "5", "6", "7", "8", "9", "10", "11", "12", "13", "14"]
+          "#bbbb00", "#00cccc", "#dd0000", "#1e2e3e", "#2f3f4f"]
+WIDTHS = ["2", "3", "4.5", "5", "6", "7", "8", "9", "10", "11", "12", "13", "14", "15", "16"]
 
 
 def value_for(prop, k):
@@ -83,7 +89,7 @@ def build_doc(prop, chosen, rule_order, extra_leaf_attr="", root_attr='width="10
     return ('<svg xmlns="http://www.w3.org/2000/svg" xmlns:xlink="http://www.w3.org/1999/xlink" %s %s>%s'
             '<defs><rect id="D" x="20" y="20" width="5" height="5"/></defs>'
             '<g id="G" class="cg" %s %s><g id="H" %s>'
-            '<rect id="L" class="cl" x="1" y="2" width="3" height="4" %s %s/>'
+            '<rect id="L" class="cl2 cl" x="1" y="2" width="3" height="4" %s %s/>'
             '<circle id="C" cx="5" cy="5" r="2"/><use id="U" xlink:href="#D"/>'
             '<path id="Q" d="M0,0 L1,1" fill="#0f0f0f" stroke="#0e0e0e" stroke-width="1.5"/>'
             '<polygon points="0,0 1,0 1,1" fill="#0d0d0d" stroke="#0c0c0c" stroke-width="2.5"/></g>'
